@@ -8,7 +8,7 @@ export GOCACHE="$PWD/build/gocache"
 (cd tools/go2coq && go build -o ../../build/go2coq .)
 ./build/go2coq -repo "${VERIF_REPO:-/repo}" -out coq/gen || echo "setup: go2coq reported untranslatable units (checks will report them)"
 cp "${VERIF_REPO:-/repo}/go.sum" tools/harness/go.sum
-(cd tools/harness && go build -tags verif -o ../../build/harness .)
+for d in tools/harness/cmd/*/; do a=$(basename "$d"); (cd tools/harness && go build -tags verif -o ../../build/harness-"$a" ./cmd/"$a") || echo "setup: harness $a does not build"; done
 ./tools/mkcoqproject.sh
 (cd coq && timeout 3000 make -j"$(nproc)" -k) || echo "setup: some Coq files do not build (checks will report them)"
 echo "setup done"
